@@ -47,8 +47,11 @@ def malformed_specs(chars):
     # float with an exponent marker but no digits
     mant = rx.alt(rx.seq(DIG, rx.star(DIG_), rx.opt(rx.seq(rx.ch("."), DIG, rx.star(DIG_)))),
                   rx.seq(rx.ch("."), DIG, rx.star(DIG_)))
-    out["float_exponent_without_digits"] = rx.starts_with(
-        rx.seq(mant, rx.anyof("eE"), rx.opt(rx.anyof("+-")), rx.star(rx.ch("_"))), chars, lambda e: z3.Not(is_dec_(e)))
+    # (a sign directly after the exponent marker belongs to the exponent: `1E-0` is well formed, `1E-` and `1E-x` are not)
+    out["float_exponent_without_digits"] = z3.Or(
+        rx.starts_with(rx.seq(mant, rx.anyof("eE"), rx.anyof("+-"), rx.star(rx.ch("_"))), chars, lambda e: z3.Not(is_dec_(e))),
+        rx.starts_with(rx.seq(mant, rx.anyof("eE"), rx.star(rx.ch("_"))), chars,
+                       lambda e: z3.Not(z3.Or(is_dec_(e), e == ord("+"), e == ord("-")))))
     # unterminated string: an opening quote and no matching quote in the rest of the input
     if chars:
         c0 = chars[0].e if hasattr(chars[0], "e") else z3.BitVecVal(chars[0], 32)
